@@ -16,7 +16,7 @@ BROKER_H = ["eventlogger/broker_state.go", "eventlogger/broker_ops.go", "eventlo
 PROPS = {
     "C02": dict(
         level="other",
-        explanation="Sequential symbolic execution of Status.getError, SetSuccessThreshold[Sinks], SuccessThreshold[Sinks] from go/ssa with thresholds, lengths (<=4) and ctx error symbolic; assertions discharged by z3 (unsat of negation).",
+        explanation="Sequential symbolic execution of Status.getError, SetSuccessThreshold[Sinks], SuccessThreshold[Sinks] from go/ssa with thresholds, lengths (<=4) and ctx error symbolic; assertions discharged by z3 (unsat of negation). Plus: the error of a Send whose context is already done wraps ctx.Err() whatever cause was recorded (H_C02_process_cancelled); node outcomes include an error together with an event and the node's own context-type errors; node objects shared by several pipelines are reported once per pipeline (H_C01_shared_nodes).",
         jobs=[dict(harness=BROKER_H, entries=r"^H_C02_", params=dict(quick=dict(K=2, L=2), thorough=dict(K=3, L=3)), shards=dict(quick=1, thorough=8)),
               dict(harness=BROKER_H, entries=r"^H_C01_process_seq$|^H_C01_shared_nodes$", params=dict(quick=dict(P=2, N=2), thorough=dict(P=3, N=3)), shards=dict(quick=4, thorough=16, H_C01_shared_nodes=1))],
         must_reach=["C01.shared.end", "C02.threshold.end", "C02.getError.end", "C02.preserved.end", "C01.process.end", "C02.cancelled.end", "C02.cancelled.error"],
@@ -25,7 +25,7 @@ PROPS = {
     ),
     "C05": dict(
         level="other",
-        explanation="Inductive step: RegisterPipeline / RegisterNode / RemoveNode / RemovePipelineAndNodes / IsAnyPipelineRegistered executed symbolically from an arbitrary broker state under the representation invariant (K symbolic node ids, symbolic types/policies/counts, target pipeline + one other pipeline explicit, the rest as ghost counts); spec predicate written independently in the harness; err==nil <=> spec and frame conditions discharged by z3.",
+        explanation="Inductive step: RegisterPipeline / RegisterNode / RemoveNode / RemovePipelineAndNodes / IsAnyPipelineRegistered executed symbolically from an arbitrary broker state under the representation invariant (K symbolic node ids, symbolic types/policies/counts, target pipeline + one other pipeline explicit, the rest as ghost counts); spec predicate written independently in the harness; err==nil <=> spec and frame conditions discharged by z3. Plus: all histories of H operations (14 kinds x policy) from 72 API-built pre-states against a reference model written from the statement (H_C05_history_vs_model: return values, registered objects, IsAnyPipelineRegistered, deliveries and closes per node object); pipeline shapes of 1..6 nodes with arbitrary node types through the public API (H_C05_shapes); same-id pipelines of other event types untouched by every mutator.",
         jobs=[dict(harness=BROKER_H, entries=r"^H_C05_|^H_C07_pipeline_other_type$", params=dict(quick=dict(K=2, L=2, H=2, N=6), thorough=dict(K=3, L=3, H=3, N=6)),
                    shards=dict(quick=1, thorough=16, H_C05_RegisterPipeline=16, H_C05_isany_after_history=16, H_C05_history_vs_model=16, H_C07_pipeline_other_type=8))],
         must_reach=["C05.register.ok", "C05.register.fail", "C05.isany.end", "C05.registernode.fail", "C05.removenode.fail", "C05.rpan.false", "C05.isany.history", "C05.history.end", "C05.shapes.accepted", "C05.shapes.end"],
@@ -35,7 +35,7 @@ PROPS = {
     ),
     "C06": dict(
         level="other",
-        explanation="Inductive step of every mutator (RegisterNode, RegisterPipeline, RemovePipeline, RemovePipelineAndNodes, RemoveNode) against the exact reference-count invariant referenceCount == listings by registered pipelines (+ ghost listings by untouched types), plus per-operation post-conditions (closed exactly once, only unreferenced nodes removed, errors carried).",
+        explanation="Inductive step of every mutator (RegisterNode, RegisterPipeline, RemovePipeline, RemovePipelineAndNodes, RemoveNode) against the exact reference-count invariant referenceCount == listings by registered pipelines (+ ghost listings by untouched types), plus per-operation post-conditions (closed exactly once, only unreferenced nodes removed, errors carried). Plus the registry histories against the reference model (as C05) and which object a removal closes when nodes are decorators with or without a Close of their own (H_C06_close_target).",
         jobs=[dict(harness=BROKER_H, entries=r"^H_C06_", params=dict(quick=dict(K=2, L=3), thorough=dict(K=3, L=4)),
                    shards=dict(quick=4, thorough=16, H_C06_RegisterPipeline=16)),
               # all histories of H operations from API-built states against the reference model (closes / in-use / deliveries)
@@ -46,7 +46,7 @@ PROPS = {
     ),
     "C07": dict(
         level="other",
-        explanation="Inductive step of RegisterNode and RegisterPipeline over symbolic policies (allow/deny/default/arbitrary invalid strings): fails iff the existing entry says DenyOverwrite (or the request is invalid) and then changes nothing; otherwise the stored policy is the requested one; linked pipelines and same-id pipelines of other event types are untouched.",
+        explanation="Inductive step of RegisterNode and RegisterPipeline over symbolic policies (allow/deny/default/arbitrary invalid strings): fails iff the existing entry says DenyOverwrite (or the request is invalid) and then changes nothing; otherwise the stored policy is the requested one; linked pipelines and same-id pipelines of other event types are untouched. Under concurrency: two registrations of one id with symbolic policies and pre-state equal one of the two sequential orders (H_C07_policies_interleaved); a Send racing with an overwrite is processed by exactly one version end to end (two fully distinct versions, a schedule point inside the node).",
         jobs=[dict(harness=BROKER_H, entries=r"^H_C07_RegisterNode$|^H_C07_pipeline_other_type$|^H_C05_RegisterPipeline$", params=dict(quick=dict(K=2, L=2), thorough=dict(K=3, L=3)),
                    shards=dict(quick=1, thorough=16, H_C05_RegisterPipeline=16, H_C07_pipeline_other_type=8)),
               dict(harness=BROKER_H, entries=r"^H_C07_send_vs_overwrite$|^H_C07_policies_interleaved$", params=dict(quick={}, thorough={}), shards=dict(quick=4, thorough=8), maxswitches=dict(quick=3, thorough=5), instrument_locks=True),
@@ -57,7 +57,7 @@ PROPS = {
     ),
     "C20": dict(
         level="other",
-        explanation="Broker.Reopen / graph.reopen / doReopen executed symbolically from an arbitrary registry (two pipelines of one type + one pipeline of a second type, every linked node a distinct stub with symbolic Reopen outcome): no failure => nil and every node reached; any failure => non-nil; a single failure is carried (errors.Is).",
+        explanation="Broker.Reopen / graph.reopen / doReopen executed symbolically from an arbitrary registry (two pipelines of one type + one pipeline of a second type, every linked node a distinct stub with symbolic Reopen outcome): no failure => nil and every node reached; any failure => non-nil; a single failure is carried (errors.Is). The context passed to Reopen may already be done; two pipelines of one type may share their head node object.",
         jobs=[dict(harness=BROKER_H, entries=r"^H_C20_", params=dict(quick=dict(K=2, L=3), thorough=dict(K=3, L=4)), shards=dict(quick=8, thorough=16))],
         must_reach=["C20.reopen.ok", "C20.reopen.one-failure"],
         bounds=dict(quick="2 types; pipelines of 2..3, 2 and 2 nodes", thorough="pipelines of 2..4, 2, 2 nodes"),
@@ -65,7 +65,7 @@ PROPS = {
     ),
     "C01": dict(
         level="other",
-        explanation="Sequential parts: Send's lookup/event construction with graph.process replaced by a recording stub; linkNodes for all lengths 0..5; RegisterPipeline builds the list from the currently registered nodes (C05 harness); graph.process/doProcess executed with cooperative scheduling on one schedule for all outcome vectors (order, at-most-once, exact event hand-over). All-schedule reasoning: see EO jobs.",
+        explanation="Sequential parts: Send's lookup/event construction with graph.process replaced by a recording stub; linkNodes for all lengths 0..5; RegisterPipeline builds the list from the currently registered nodes (C05 harness); graph.process/doProcess executed with cooperative scheduling on one schedule for all outcome vectors (order, at-most-once, exact event hand-over). All-schedule reasoning: see EO jobs. Plus node objects shared between pipelines (invoked once per listing pipeline), two overlapping Sends sharing no mutable dispatch state (lockset), and the other-type frame of every registry mutator.",
         jobs=[dict(harness=BROKER_H, entries=r"^H_C01_Send$", params=dict(quick=dict(K=2, L=2), thorough=dict(K=3, L=3)), shards=dict(quick=1, thorough=4),
                    overrides=["(*github.com/hashicorp/eventlogger.graph).process=verifStubProcess"]),
               dict(harness=BROKER_H, entries=r"^H_C01_linkNodes$|^H_C01_shared_nodes$|^H_C01_two_sends$", params=dict(quick=dict(LL=5), thorough=dict(LL=5))),
@@ -78,7 +78,7 @@ PROPS = {
     ),
     "C11": dict(
         level="other",
-        explanation="Inductive step of gated.Filter.Process / FlushAll / Close (with the real container/list code) from an arbitrary filter state under the representation invariant (<=G open groups with symbolic ids, expiry instants and 1..E events each), with symbolic clock, flush flag, compose outcome (plain / Gateable / error) and send outcome; ghost logs of compose and send calls decide exactly-once, order and whole-group composition.",
+        explanation="Inductive step of gated.Filter.Process / FlushAll / Close (with the real container/list code) from an arbitrary filter state under the representation invariant (<=G open groups with symbolic ids, expiry instants and 1..E events each), with symbolic clock, flush flag, compose outcome (plain / Gateable / error) and send outcome; ghost logs of compose and send calls decide exactly-once, order and whole-group composition. Plus histories of H operations from the zero-value filter against a reference model of the open groups (H_C11_history_vs_model), a fixed five-event scenario with all instants symbolic (H_C17_staggered_expiry), the pre-state 'flushed / closed before, used again', and arbitrary creation times on the gated events (arrival order, not time order).",
         jobs=[dict(pkg="./filters/gated", harness=["gated/gated.go", "gated/concurrent.go"], entries=r"^H_C11_|^H_C17_", params=dict(quick=dict(G=2, E=2, GC=1, EC=1), thorough=dict(G=3, E=2, GC=2, EC=2)), shards=dict(quick=4, thorough=16, H_C11_concurrent=16),
                    maxswitches=dict(quick=3, thorough=4), instrument_locks=True),
               # histories from the zero-value filter against a reference model of the open groups
@@ -91,7 +91,7 @@ PROPS = {
 }
 PROPS["C18"] = dict(
     level="other",
-    explanation="cloudevents FormatterFilter.Process / validate / sign / Rotate executed symbolically over all configurations (source nil/empty/set, schema nil/empty/set, arbitrary format string, signer absent/succeeding/failing, <=T listed types, predicate absent/true/false/error) and payload kinds (plain, ID, Data, both); json.Encoder.Encode, base64 and url.URL.String are uninterpreted/deterministic functions, so 'serialized is the exact unsigned document' and 'signer saw exactly those bytes' are term equalities decided by z3.",
+    explanation="cloudevents FormatterFilter.Process / validate / sign / Rotate executed symbolically over all configurations (source nil/empty/set, schema nil/empty/set, arbitrary format string, signer absent/succeeding/failing, <=T listed types, predicate absent/true/false/error) and payload kinds (plain, ID, Data, both); json.Encoder.Encode, base64 and url.URL.String are uninterpreted/deterministic functions, so 'serialized is the exact unsigned document' and 'signer saw exactly those bytes' are term equalities decided by z3. Plus histories of events of listed / unlisted types interleaved with Rotate (signed iff listed, by the signer in force), payloads whose Data() returns nil, predicate (true, err), hostile text for ids and types in native replays.",
     jobs=[dict(pkg="./formatter_filters/cloudevents", harness=["cloudevents/cloudevents.go"], entries=r"^H_C18_", params=dict(quick=dict(T=1, STEPS=3), thorough=dict(T=3, STEPS=5)), shards=dict(quick=8, thorough=16))],
     must_reach=["C18.invalid", "C18.emptyid", "C18.ok-signed", "C18.ok-unsigned", "C18.error", "C18.rotate", "C18.two.end", "C18.listing.end", "C18.history.end"],
     bounds=dict(quick="SignEventTypes <= 1; histories of <= 3 steps over {event of listed type 1/2, unlisted type, Rotate to signer A/B}", thorough="SignEventTypes <= 3; histories of <= 5 steps"),
@@ -101,7 +101,7 @@ PROPS["C18"] = dict(
 PROPS["C17"] = dict(PROPS["C11"], must_reach=["C17.flushall.ok", "C11.process.gated", "C17.flushall.after-earlier-close", "C11.history.end", "C17.staggered.end"])
 PROPS["C14"] = dict(
     level="other",
-    explanation="JSONFormatter / JSONFormatterFilter / Filter / Event.FormattedAs / Event.Format executed symbolically over arbitrary events (symbolic type, time, payload fields, nil or <=2-entry format table) and predicate outcomes; json.Encoder.Encode is an uninterpreted deterministic function of the flattened value (including the struct's field tags), so 'the stored bytes are the encoding of exactly {created_at,event_type,payload}' is a term equality against an independently written reference encoding.",
+    explanation="JSONFormatter / JSONFormatterFilter / Filter / Event.FormattedAs / Event.Format executed symbolically over arbitrary events (symbolic type, time, payload fields, nil or <=2-entry format table) and predicate outcomes; json.Encoder.Encode is an uninterpreted deterministic function of the flattened value (including the struct's field tags), so 'the stored bytes are the encoding of exactly {created_at,event_type,payload}' is a term equality against an independently written reference encoding. Payload present or nil; predicate outcomes true / false / (false, err) / (true, err); encoder failures and hostile text (control characters, quotes, non-UTF-8) are acted out in native replays.",
     jobs=[dict(harness=BROKER_H, entries=r"^H_C14_", params=dict(quick={}, thorough={}))],
     must_reach=["C14.unencodable", "C14.forwarded", "C14.filter.end", "C14.table.end", "C14.two.end"],
     bounds=dict(quick="format table nil or <=2 entries", thorough="same"),
@@ -110,7 +110,7 @@ PROPS["C14"] = dict(
 )
 PROPS["C13"] = dict(
     level="other",
-    explanation="writer.Sink.Process executed symbolically with an io.Writer stub returning symbolic (n, err) incl. short writes, arbitrary format tables (<=F entries) and configured format: success only after exactly one Write of exactly the configured format's bytes under the sink's lock; error otherwise. (bytes.Reader.WriteTo is the standard library's code transcribed as a Go model over opaque content.)",
+    explanation="writer.Sink.Process executed symbolically with an io.Writer stub returning symbolic (n, err) incl. short writes, arbitrary format tables (<=F entries) and configured format: success only after exactly one Write of exactly the configured format's bytes under the sink's lock; error otherwise. (bytes.Reader.WriteTo is the standard library's code transcribed as a Go model over opaque content.) FileSink additionally with two concurrent writers (interleaving exploration, each event once and whole); ChannelSink with a context that is done before the call or becomes done while Process waits, and a timeout that elapses or is far away.",
     jobs=[dict(pkg="./sinks/writer", harness=["sinks/writer.go", "sinks/writer_c19.go"], entries=r"^H_C13_writer|^H_C19_writer_pairs$", params=dict(quick=dict(F=2), thorough=dict(F=3))),
           dict(pkg="./sinks/channel", harness=["sinks/channel.go"], entries=r"^H_C13_channel", params=dict(quick={}, thorough={}))],
     must_reach=["C13.writer.rejected", "C13.writer.ok", "C13.writer.failed", "C13.channel.ok", "C13.channel.error"],
@@ -130,7 +130,7 @@ PROPS["C04"] = dict(
 )
 PROPS["C12"] = dict(
     level="other",
-    explanation="Every Broker API call executed symbolically with a registered node that re-enters Send on the same broker from Process, Close or Reopen; the RWMutex contract of the executor reports (a) any acquisition of a lock the goroutine already holds in a conflicting mode (self-deadlock) and (b) a recursive read lock (deadlocks behind a queued writer under Go's writer preference); locks held at return are asserted empty. Counterexamples are replayed natively with a watchdog (and, for (b), a stream of concurrent writers).",
+    explanation="Every Broker API call executed symbolically with a registered node that re-enters Send on the same broker from Process, Close or Reopen; the RWMutex contract of the executor reports (a) any acquisition of a lock the goroutine already holds in a conflicting mode (self-deadlock) and (b) a recursive read lock (deadlocks behind a queued writer under Go's writer preference); locks held at return are asserted empty. Counterexamples are replayed natively with a watchdog (and, for (b), a stream of concurrent writers). Plus a catalogue of 28 calls (every exported method on its success and early-return paths): afterwards no lock is held and setters, getters, Send and RegisterNode return (H_C12_every_call_releases); the same catalogue racing with a writer queued on the broker lock (H_C12_every_call_vs_writer, deterministic replay).",
     jobs=[dict(harness=BROKER_H, entries=r"^H_C12_reentry$|^H_C12_every_call_releases$", params=dict(quick={}, thorough={}), shards=dict(quick=4, thorough=4)),
           dict(harness=BROKER_H, entries=r"^H_C12_reentry_vs_writer$|^H_C12_every_call_vs_writer$", params=dict(quick={}, thorough={}), shards=dict(quick=4, thorough=8), maxswitches=dict(quick=3, thorough=5), instrument_locks=True),
           dict(pkg="./filters/gated", harness=["gated/gated.go", "gated/c12.go"], entries=r"^H_C12_", params=dict(quick=dict(G=2), thorough=dict(G=3)), shards=dict(quick=4, thorough=8))],
@@ -178,7 +178,7 @@ PROPS["C19"] = dict(
 FS_NOTE = "FileSink.Process / Reopen / reopen / open / rotate / pruneFiles / fileNamePattern / newFileName executed symbolically over a ghost file system (contracts for os.OpenFile incl. its flag word, Write, Close, Stat, Rename, Remove, Chmod, MkdirAll, filepath.Join/Glob, sort.Strings; file names parsed back into literal+timestamp structure so glob matching and order are decided structurally / as integer comparisons) from an arbitrary sink state (<=R rotated files with increasing symbolic timestamps, foreign files, active file open or not, symbolic BytesWritten/LastCreated/MaxBytes/MaxFiles/MaxDuration/Mode/TimestampOnlyOnRotate, symbolic clock). "
 PROPS["C08"] = dict(
     level="other",
-    explanation=FS_NOTE + "Assertions: an acknowledged event is appended exactly once and contiguously to the file the sink holds; existing files keep their content; only the oldest rotated files are removed and only under a retention limit; foreign files untouched; Reopen after an external rename keeps the renamed inode intact and starts a fresh file.",
+    explanation=FS_NOTE + "Assertions: an acknowledged event is appended exactly once and contiguously to the file the sink holds; existing files keep their content; only the oldest rotated files are removed and only under a retention limit; foreign files untouched; Reopen after an external rename keeps the renamed inode intact and starts a fresh file. Plus histories of H operations (write / Reopen / external rename + Reopen) from an empty directory: the files read oldest to newest hold exactly the acknowledged sequence, or a suffix of it under a retention limit (H_C08_history); two concurrent writers (H_C08_concurrent_writers); a directory created on demand and the default mode (H_C15_fresh_directory).",
     jobs=[dict(harness=BROKER_H, entries=r"^H_C08_(Process|Reopen|history)$|^H_C15_fresh_directory$", params=dict(quick=dict(R=2, FAULTS=0, H=4), thorough=dict(R=3, FAULTS=0, H=5)), shards=dict(quick=16, thorough=16), instrument_clock=True),
           dict(harness=BROKER_H, entries=r"^H_C08_concurrent_writers$", params=dict(quick={}, thorough={}), shards=dict(quick=4, thorough=8), maxswitches=dict(quick=3, thorough=5), instrument_locks=True)],
     must_reach=["C08.concurrent.end", "C08.history.end", "C15.fresh-directory.end", "C08.process.norotate", "C08.process.rotated", "C08.process.opened", "C08.reopen.renamed", "C08.reopen.plain"],
@@ -194,7 +194,7 @@ ENC_H = ["encrypt/common.go", "encrypt/helpers_sym.go", "encrypt/helpers_native.
 ENC_DIR = REPO + "/filters/encrypt"
 PROPS["C16"] = dict(
     level="other",
-    explanation="Filter.encrypt, Filter.hmacSha256, Rotate, the rotation-payload branch of Process, NewEventWrapper, NewDerivedReader and derivedKeyId executed symbolically with every cryptographic leaf (aead.Wrapper Encrypt/KeyBytes/KeyId, hkdf.New, io.ReadFull of the derived reader, hmac, ed25519.GenerateKey, proto.Marshal, base64) an uninterpreted deterministic function of its inputs: the output must be exactly enc / HMAC under the wrapper, salt and info in force (per-event values first), Rotate / rotation payloads install the new material (copied, not aliased) and the next value uses it; the per-event wrapper is a function of (filter wrapper key, event id) only.",
+    explanation="Filter.encrypt, Filter.hmacSha256, Rotate, the rotation-payload branch of Process, NewEventWrapper, NewDerivedReader and derivedKeyId executed symbolically with every cryptographic leaf (aead.Wrapper Encrypt/KeyBytes/KeyId, hkdf.New, io.ReadFull of the derived reader, hmac, ed25519.GenerateKey, proto.Marshal, base64) an uninterpreted deterministic function of its inputs: the output must be exactly enc / HMAC under the wrapper, salt and info in force (per-event values first), Rotate / rotation payloads install the new material (copied, not aliased) and the next value uses it; the per-event wrapper is a function of (filter wrapper key, event id) only. Plus histories of events, events with an id (per-event salt/info nil or set), Rotate and rotation payloads with any subset of the material against a model of what is in force (H_C16_history_vs_model), the caller's earlier salt/info slices are never written, and the C09 shape harnesses (values protected through struct fields, map entries and pointer tags are the right function of the original bytes).",
     jobs=[dict(dir=ENC_DIR, harness=ENC_H, entries=r"^H_C16_(encrypt|hmac|rotate|event_wrapper|event_id_across_rotation)$", params=dict(quick={}, thorough={}), shards=dict(quick=4, thorough=8)),
           # values protected through the payload walkers (struct fields, map entries, pointer tags) are the right function of the
           # original bytes as well: the C09 shape harnesses assert "exactly enc / HMAC of the original under the material in force"
